@@ -221,7 +221,8 @@ fn sibling(txt: &str, how: usize) -> Option<String> {
         }
         1 => {
             let z = v["meta"]["climate"].as_str().unwrap_or("D3").to_string();
-            v["meta"]["climate"] = json!(if z == "A3" { "E1" } else { "A3" });
+            // the other family of zones (peninsular / Canary Islands: another latitude, another sun path)
+            v["meta"]["climate"] = json!(if z.ends_with('c') { "E1" } else { "A3c" });
         }
         _ => {
             // every window twice as wide, every wall tilted by 10 degrees less (kept in range)
@@ -519,7 +520,7 @@ pub fn run(a: &Args) -> Batch {
         agree: "agree_C05".into(),
         cases,
         impl_findings,
-        rule: "operation pool = convert every shipped .ctehexml project and legacy .cte file + indicators of every converted project, shipped model file and generated model, each with three siblings sharing all ids (building turned 90 degrees, other climate zone, resized windows / tilted walls); histories = three passes in this process (in order, reversed, shuffled), 16 concurrent threads with shuffled halves of the pool, every operation first in a fresh process, every id-sharing group in both orders in a fresh process, random histories in fresh processes; one Hist case per operation holding all its observations (non-trivial when observed in at least 4 contexts); Ids cases = element ids of each project before / after appending an unrelated MATERIAL, DAY-SCHEDULE-PD, BUILDING-SHADE, GLASS-TYPE or NAME-FRAME block; Ref cases = the (project, reference model) pairs named in /repo/Makefile that exist".into(),
+        rule: "operation pool = convert every shipped .ctehexml project and legacy .cte file + indicators of every converted project, shipped model file and generated model, each with three siblings sharing all ids (building turned 90 degrees, a climate zone of the other family - peninsular / Canary Islands -, resized windows / tilted walls); histories = three passes in this process (in order, reversed, shuffled), 16 concurrent threads with shuffled halves of the pool, every operation first in a fresh process, every id-sharing group in both orders in a fresh process, random histories in fresh processes; one Hist case per operation holding all its observations (non-trivial when observed in at least 4 contexts); Ids cases = element ids of each project before / after appending an unrelated MATERIAL, DAY-SCHEDULE-PD, BUILDING-SHADE, GLASS-TYPE or NAME-FRAME block, under a fresh name or under the name of an existing definition of another kind; Ref cases = the (project, reference model) pairs named in /repo/Makefile that exist".into(),
         stats: json!({"pool": npool, "histories": runs.len(), "observations": nobs, "histories_died": dead.len(), "ids_cases": nids, "ids_skipped": ids_skipped, "ref_cases": nref,
                        "convert_ops": shipped.len() + nleg, "indicator_ops": npool - shipped.len() - nleg}),
     }
